@@ -181,6 +181,14 @@ where
     ) -> Option<Vec<crate::verif::PoolOrigin<R>>> {
         self.pool.as_ref().map(|pool| pool.verif_snapshot(f))
     }
+
+    /// Verification hook: see [`crate::verif::PoolLock`] (`None` without a pool).
+    pub fn verif_lock(&self) -> Option<crate::verif::PoolLock>
+    where
+        P::Connection: Send,
+    {
+        self.pool.as_ref().map(|pool| pool.verif_lock())
+    }
 }
 
 impl
